@@ -156,6 +156,7 @@ class Engine:
         self.notes = []
         self.loop_ord = {}
         self.site_ord = {}
+        self.call_ord = {}
         self._number(self.fn)
         from . import builtins as bi
 
@@ -181,6 +182,15 @@ class Engine:
         loops = [n for n in ast.walk(fn) if isinstance(n, (ast.For, ast.While, ast.AsyncFor))]
         for k, n in enumerate(sorted(loops, key=lambda n: (n.lineno, n.col_offset))):
             self.loop_ord[id(n)] = k
+        # call sites of one callee are numbered in source order too: at_call assertions may be keyed "name@k" for the k-th site
+        per_name = {}
+        for n in sorted([n for n in ast.walk(fn) if isinstance(n, ast.Call)], key=lambda n: (n.lineno, n.col_offset)):
+            try:
+                d = ast.unparse(n.func)
+            except Exception:  # noqa
+                continue
+            self.call_ord[id(n)] = per_name.get(d, 0)
+            per_name[d] = per_name.get(d, 0) + 1
 
     # ================================================================== exploration
     def explore(self):
